@@ -24,6 +24,7 @@ type lexeme struct {
 type gen struct {
 	r      *rng
 	plain  bool // single spaces, upper-case keywords, quote only when needed
+	odd    bool // also emit forms a later validation stage would reject (odd argument counts and kinds); no AST is promised
 	toks   []lexeme
 	nogaps bool
 	gaps   []int // byte offsets (in the last joined text) of whitespace gaps: start,end pairs
@@ -68,6 +69,9 @@ func wordyStart(s string) bool {
 
 // needGap: the two lexemes would lex differently if written adjacently.
 func needGap(a, b string) bool {
+	if a == "" || b == "" {
+		return false
+	}
 	if wordyEnd(a) && wordyStart(b) {
 		return true
 	}
@@ -243,6 +247,9 @@ func (g *gen) callN(depth int, allowDistinct bool) *influxql.Call {
 	k := g.r.intn(4)
 	if n == "now" {
 		k = 0
+	}
+	if g.odd && g.r.chance(1, 3) {
+		k = g.r.intn(2) * 5
 	}
 	for i := 0; i < k; i++ {
 		if i > 0 {
@@ -527,6 +534,20 @@ func (g *gen) dimensions(depth int) influxql.Dimensions {
 			g.emit("*")
 			ds = append(ds, &influxql.Dimension{Expr: &influxql.Wildcard{}})
 		case 1:
+			if g.odd && g.r.chance(1, 2) {
+				g.emit(pick(g.r, []string{"time", "TIME", "Time"}))
+				g.emitGlued("(")
+				k := g.r.intn(4)
+				for j := 0; j < k; j++ {
+					if j > 0 {
+						g.emit(",")
+					}
+					g.emit(pick(g.r, []string{"0s", "-1s", "1s", "x", "1", "1.5", "'s'", "now()", "*", "5m", "10s / 0.5", "9223372036854775807ns"}))
+				}
+				g.emit(")")
+				ds = append(ds, &influxql.Dimension{Expr: &influxql.Wildcard{}})
+				continue
+			}
 			g.emit("time")
 			g.emitGlued("(")
 			d := pick(g.r, durPool)
@@ -1362,7 +1383,13 @@ func (g *gen) statement(kind string) influxql.Statement {
 			q.Target = &influxql.Target{Measurement: m}
 			g.kw("FROM")
 			q.Sources = g.sources(0, false)
-			g.kw("GROUP"); g.kw("BY"); g.emit("time"); g.emitGlued("("); g.emit("5m"); g.emit(")")
+			g.kw("GROUP"); g.kw("BY"); g.emit("time"); g.emitGlued("(")
+			if g.odd {
+				g.emit(pick(g.r, []string{"", "5m", "0s", "x", "1", "5m, 1m", "5m, 1m, 1s", "-5m", "*"}))
+			} else {
+				g.emit("5m")
+			}
+			g.emit(")")
 			q.Dimensions = influxql.Dimensions{{Expr: &influxql.Call{Name: "time", Args: []influxql.Expr{&influxql.DurationLiteral{Val: 5 * time.Minute}}}}}
 			if g.r.chance(1, 2) {
 				g.emit(","); g.ident("host")
@@ -1387,6 +1414,13 @@ func (g *gen) statement(kind string) influxql.Statement {
 }
 
 // genStatement: one statement of the given kind in a random legal spelling.
+// genOddStatement: a statement text that may contain forms later validation would reject; no AST is promised.
+func genOddStatement(r *rng, kind string) string {
+	g := &gen{r: r, plain: r.chance(1, 2), odd: true}
+	g.statement(kind)
+	return g.join()
+}
+
 func genStatement(r *rng, kind string, plain bool) (string, influxql.Statement, *gen) {
 	g := &gen{r: r, plain: plain}
 	st := g.statement(kind)
